@@ -920,11 +920,13 @@ func (r *c27Rig) compactSpoke(t *rapid.T) {
 		r.note("compactSpoke %s deferred (%d of %d eligible)", dir, len(kept), len(byDir[dir]))
 		return
 	}
-	hub, rc := r.hubFiles(), r.receipts()
+	hub, rc, lrows := r.hubFiles(), r.receipts(), r.ledgerRows()
 	var out []byte
 	for _, p := range kept {
 		f := r.files[p]
-		if !f.Compacted && !r.hubGone[p] && !r.hubHolds(p, hub, rc, f.SHA) {
+		// an operator-dismissed failure is documented as eligible: the operator renounced its delivery
+		dismissed := lrows[p].State == string(StateSkipped) && lrows[p].Note == NoteOperatorDismissed
+		if !f.Compacted && !dismissed && !r.hubGone[p] && !r.hubHolds(p, hub, rc, f.SHA) {
 			r.fail("compacted-undelivered", "eligibility gate released %q for compaction but the hub does not hold it", p)
 		}
 		out = append(out, f.Content...)
